@@ -618,6 +618,27 @@ func c05Program(p *prog, steps int) {
 		}
 		switch {
 		case op < 12: // Add (sometimes a growth burst past the capacity, now and then without any argument)
+			if r.Chance(1, 15) && n <= 12 {
+				// the list is given a one-level snapshot of itself or of another list: the same values once more (containers by
+				// reference), whatever the receiver's storage does while it grows
+				src := ls[r.Intn(len(ls))]
+				if !model.Reaches(src, l) || src == l {
+					cycle := false
+					for _, e := range src.E {
+						if e.Ref != nil && model.Reaches(e.Ref, l) {
+							cycle = true
+						}
+					}
+					if !cycle {
+						c.Count("adds_of_a_list_snapshot")
+						p.step("Add", fmt.Sprintf("%s.Add(%s.Slice()...) [n=%d]", l.Name(), src.Name(), n), false, func() {
+							l.E = append(l.E[:len(l.E):len(l.E)], src.E...)
+							l.List().Add(src.List().Slice()...)
+						})
+						continue
+					}
+				}
+			}
 			k := r.Range(1, 3)
 			if r.Chance(1, 12) {
 				k = 0
